@@ -71,13 +71,25 @@ def main():
         meta["demo_with_patch"] = {"exit": r1.returncode, "s": round(time.time() - t0, 1), "tail": (r1.stdout + r1.stderr)[-400:]}
         meta["ran"] += ["demo.py <clean worktree>/src -> %d" % r0.returncode, "git apply patch.diff; 37 baseline tests: %s" % meta["baseline_tests_with_patch"],
                         "demo.py <patched worktree>/src -> %d" % r1.returncode]
+        if "--via-copy" in sys.argv and meta.get("patch_applies"):
+            meta["checks"] = {}
+            for c in checks:
+                t0 = time.time()
+                rc = sh("cd %s && VERIF_SUBJECT_SRC=%s/src timeout 1800 ./check %s --tier quick" % (VERIF, scratch, c))
+                lines = [l for l in rc.stdout.splitlines() if l.startswith("VIOLATION") or l.strip().startswith("clause=")]
+                meta["checks"][c] = {"exit": rc.returncode, "s": round(time.time() - t0, 1),
+                                     "caught": rc.returncode == 1 and any("VIOLATION property=%s" % c in l for l in lines),
+                                     "first": [l.strip()[:300] for l in lines[:2]],
+                                     "stderr": rc.stderr[-300:] if rc.returncode == 2 else ""}
+                meta["ran"].append("VERIF_SUBJECT_SRC=<patched scratch worktree>/src ./check %s --tier quick -> exit %d" % (c, rc.returncode))
     finally:
         sh("git -C %s worktree remove --force %s" % (REPO, scratch))
     meta["confirmed"] = bool(meta.get("patch_applies") and meta["demo_without_patch"]["exit"] == 0 and meta["demo_with_patch"]["exit"] == 1
                              and " passed" in meta["baseline_tests_with_patch"] and "failed" not in meta["baseline_tests_with_patch"])
     # our checks against the change (applied to /repo itself, undone straight afterwards)
-    meta["checks"] = {}
-    if meta.get("patch_applies"):
+    if "--via-copy" not in sys.argv:
+        meta["checks"] = {}
+    if meta.get("patch_applies") and "--via-copy" not in sys.argv:
         ra = sh("git -C %s apply %s" % (REPO, patch))
         try:
             if ra.returncode == 0:
